@@ -292,6 +292,15 @@ func (x *Exec) runFrame(fr *frame) {
 		for _, instr := range nonPhis {
 			fr.curInstr = instr
 			x.steps++
+			if sl := x.eng.cfg.SpinLimit; sl > 0 && x.schedState != nil && x.schedState.multi && x.cur != nil {
+				x.cur.sinceVisible++
+				if x.cur.sinceVisible > sl {
+					// a thread that runs this long without any visible operation (no atomics, locks,
+					// channels, sleeps, harness-declared accesses) spins: nobody can stop it
+					x.violate("livelock", fmt.Sprintf("livelock: %v executed more than %d instructions without a visible operation (spinning in %s)", x.cur, sl, fr.fn.String()), x.posOf(fr.curInstr))
+					panic(pathEnd{"livelock"})
+				}
+			}
 			if x.steps > x.eng.cfg.MaxSteps {
 				abortf("instruction budget %d exhausted (unwinding bound)", x.eng.cfg.MaxSteps)
 			}
